@@ -125,6 +125,8 @@ def do_replay(module, obname, call, real=False):
 
 def main(argv):
     mode = argv[0]
+    if mode == "replay":
+        os.environ["VF_REPLAY"] = "1"
     real_stdout = sys.stdout
     sys.stdout = io.StringIO()   # nauyaca prints warnings in places; keep protocol clean
     try:
